@@ -20,10 +20,13 @@ Hypotheses used throughout (all satisfiable, see the examples at the end):
 * `Faithful F c.src` — when the byte source succeeds on an in-bounds request it returns the file's bytes;
 * `SourceOk F c.src` (only where stated) — the byte source succeeds on every in-bounds request.
 
-There is no bound on the file, the chunk size, the history length or the offsets/sizes. Every history is a
-sequence of mutex-protected critical sections executed one after the other; under the assumption that
-`std::sync::Mutex` makes the sections atomic, this covers every interleaving of concurrent readers at lock
-granularity (notes/C13.md says what that does not cover).
+There is no bound on the file, the chunk size, the history length or the offsets/sizes.
+Three further parts: concurrent readers under every schedule of the calls' atomic sections at lock granularity
+(`Model/ChunkCacheConc.lean`, theorems `C13_interleaving*`, assuming that `std::sync::Mutex` makes a critical
+section atomic; notes/C13.md says what that does not cover), the shared.rs layer through which parsers reach the
+cache (`Model/ChunkCacheShared.lean`, theorems `C13_shared_*`), and a second invariant for failing sources
+(`C13_total_after_success`). The excluded point of `Faithful` — a source that reports success with a buffer of
+the wrong length — is `C13_wrong_length_panics` (the harness runs the real code there: `srcmode` lines).
 Only property theorems (names `C13_*`) and non-vacuity examples live in this file.
 -/
 open CC
@@ -289,6 +292,23 @@ theorem C13_total_after_success (c : Cfg) (F : List UInt8) (hc : 0 < c.chunk)
   rw [hrun]
   obtain ⟨idx, br, hbr, c1, c2⟩ := mono _ _ hcov2
   exact readBytesAt_covered c F hc hsz hch hf hmono _ i3 j3 o' n' (by omega) ⟨idx, br, hbr, by omega, by omega⟩
+
+/-- The excluded point of `Faithful`, as the code behaves: if the byte source reports success on the buffer
+the cache has planned but delivers a different number of bytes (a file truncated or grown after its length was
+taken), `get_range_location` panics at `assert!(buffer.len() == read_len)` (cache.rs:67) with the cache state
+untouched — the `FileByteSource` contract says "otherwise the caller may panic". The mutex is poisoned, every
+later call on the object panics too. -/
+theorem C13_wrong_length_panics (c : Cfg) (st : St) (r rr : Range) (buf : List UInt8)
+    (hplan : determineRangeSourcing c.chunk st.mgr r = .ok (.needNew rr)) (hle : rr.lo ≤ rr.hi)
+    (hsrc : c.src rr.lo (rr.hi - rr.lo) = some buf) (hlen : buf.length ≠ rr.hi - rr.lo) :
+    getRangeLocation c st r = (st, .panic) := by
+  unfold getRangeLocation
+  rw [hplan]
+  have n1 : ¬ ¬ rr.lo ≤ rr.hi := by omega
+  simp only [n1, if_false, hsrc, hlen, ne_eq, not_false_eq_true, if_true]
+
+/-- outside `srcmode` sections the model driver runs the faithful source of `C13_driver_source` -/
+theorem C13_driver_source_mode_zero (g : C13.Gen) : C13.srcMode g 0 = C13.src g := C13.srcMode_zero g
 
 /-- the chunk size of the code (`CHUNK_SIZE = 32 * 1024`, cache.rs:11) divides `2^64` -/
 theorem C13_real_chunk_divides : realChunk ∣ U64 := by decide
